@@ -428,6 +428,7 @@ def plan(tier):
     units.append(('prefixed', tier))
     units.append(('ownalias', tier))
     units.append(('proplayout', tier))
+    units.append(('strings', tier))
     return units
 
 
@@ -589,6 +590,24 @@ def run(unit):
             probs = compare_text(kind, text, exp, r)
             _add(r, [(f'keyword-prefixed name: {k_}', d) for k_, d in probs], {'kind': kind, 'text': text}, len(text))
         r.sample({'keyword_prefixed': 'globally : no nox'})
+    elif what == 'strings':
+        # white space INSIDE string literals, titles and descriptions is part of the value: every ordered pair of
+        # 14 strings that differ in inner / leading / trailing blanks (or look like HPL text), parsed one after the
+        # other on the same parser object through every entry point
+        strs = ['a b', 'a  b', 'a\tb', ' a b', 'a b ', 'a   b', 'ab', 'a b  c', 'globally: no a', '# id: x', 'a # b', 'a } {', 'x and y', "a 'b'"]
+        shapes = [('expr', 'sa = "%s"'), ('cond', 'sa = "%s" or p'), ('pred', '{ sa = "%s" }'), ('prop', 'globally: no t { sa = "%s" }'),
+                  ('prop', '# title: "%s" globally: no t'), ('prop', '# description: "%s" # id: k globally: some t within 1 s'),
+                  ('spec', '# title: "%s" globally: no t\n# id: q globally: no u { sa = "%s" }')]
+        for kind, shape in shapes:
+            for s1 in strs:
+                for s2 in strs:
+                    r.count('evaluations')
+                    r.count('states')
+                    for sx in (s1, s2):
+                        text = shape % ((sx,) * shape.count('%s'))
+                        probs = compare_text(kind, text, None, r)
+                        _add(r, [(f'string with inner white space: {k_}', d) for k_, d in probs], {'kind': kind, 'text': text, 'before': shape % ((s1,) * shape.count('%s'))}, len(text))
+        r.sample({'strings': 'sa = "a  b" after sa = "a b"'})
     elif what == 'ownalias':
         # an event's predicate refers to the event's own alias in every slot kind (the parser stores the
         # message itself there): operands, range bounds with each bracket form, set elements, indices,
@@ -674,7 +693,7 @@ def replay(w):
 def describe(tier):
     b = bounds(tier)
     return {
-        'rule': f"U1: all Bool/Num/Str terms <= {b['nodes']} nodes (every expression node kind; ints, decimals, exponents, leading-dot numbers, escaped strings, constants) in minimal and full parenthesisation through the expression, predicate and condition entry points and (predicates) inside a property and a specification file, which use the other embedded grammar; the operator-pair matrix: every well-sorted (a op1 b) op2 c and a op1 (b op2 c) over all pairs of the 16 binary operators plus unary operators and quantifiers in operand positions (344 terms) through all five entry points; U2: every property skeleton (widths <= {b['max_width']}) x 4 decorations x 6 time bounds x 3 metadata forms; U3: all layouts (newline, tab, glued) and redundant parentheses with <= {b['layout_dev']} deviations on terms <= {b['layout_nodes']} nodes and on the property/specification corpus; U4: all token sequences of length <= {b['seq_len_full']} over a {len(FULL_ALPHABET)}-token alphabet for 5 entry points, <= {b['seq_len_core']} over a {len(CORE_ALPHABET)}-token core alphabet (properties: <= {b['seq_len_core'] + 2} over {len(PROP_CORE)} tokens), all single token edits{' and double edits' if b['double_edits'] else ''} of a {sum(len(v) for v in CORPUS.values())}-text corpus; U5: grammar files vs embedded grammar on the corpus and its edits; U7: 21 predicates that use the event's own alias in every slot kind (range bounds with all bracket forms, set elements, indices, function arguments incl. the whole message, quantifier domains and bodies) x 5 property positions; U6: {len(PREFIXED)} keyword-prefixed names as field, nested field, variable, quantified variable, topic and alias. A state = one text; a transition = one real parse; every text is decided three ways (generator tree / reference parser / implementation).",
+        'rule': f"U1: all Bool/Num/Str terms <= {b['nodes']} nodes (every expression node kind; ints, decimals, exponents, leading-dot numbers, escaped strings, constants) in minimal and full parenthesisation through the expression, predicate and condition entry points and (predicates) inside a property and a specification file, which use the other embedded grammar; the operator-pair matrix: every well-sorted (a op1 b) op2 c and a op1 (b op2 c) over all pairs of the 16 binary operators plus unary operators and quantifiers in operand positions (344 terms) through all five entry points; U2: every property skeleton (widths <= {b['max_width']}) x 4 decorations x 6 time bounds x 3 metadata forms; U3: all layouts (newline, tab, glued) and redundant parentheses with <= {b['layout_dev']} deviations on terms <= {b['layout_nodes']} nodes and on the property/specification corpus; U4: all token sequences of length <= {b['seq_len_full']} over a {len(FULL_ALPHABET)}-token alphabet for 5 entry points, <= {b['seq_len_core']} over a {len(CORE_ALPHABET)}-token core alphabet (properties: <= {b['seq_len_core'] + 2} over {len(PROP_CORE)} tokens), all single token edits{' and double edits' if b['double_edits'] else ''} of a {sum(len(v) for v in CORPUS.values())}-text corpus; U5: grammar files vs embedded grammar on the corpus and its edits; U7: 21 predicates that use the event's own alias in every slot kind (range bounds with all bracket forms, set elements, indices, function arguments incl. the whole message, quantifier domains and bodies) x 5 property positions; U6: {len(PREFIXED)} keyword-prefixed names as field, nested field, variable, quantified variable, topic and alias. A state = one text; Plus every ordered pair of 14 strings that differ in inner / leading / trailing blanks (or look like HPL text) as string literal, title and description, parsed one after the other on the same parser object through 7 entry-point shapes; a transition = one real parse; every text is decided three ways (generator tree / reference parser / implementation).",
         'bounds': b,
         'exhaustive': True,
         'assumptions': [
